@@ -15,6 +15,14 @@ const (
 	maxPageSize     = 1000
 )
 
+// checkPageSize rejects page sizes no page can have.
+func checkPageSize(pageSize int32) error {
+	if pageSize < 0 {
+		return status.Errorf(codes.InvalidArgument, "bad page size: %d is negative", pageSize)
+	}
+	return nil
+}
+
 func capPageSize(pageSize int) int {
 	if pageSize == 0 {
 		return defaultPageSize
